@@ -13,7 +13,9 @@ PROPERTY_ID = "C11"
 LEVEL = "exploration"
 RULE = ("Random error-free G-core programs (function / enum definitions, top-level lets, assignments, loops, matches, "
         "closures, prints) cut at definition and statement boundaries into 1..8 session inputs; every name is defined "
-        "once and definitions precede uses. Session A receives the inputs one request at a time, session B (fresh) "
+        "once and definitions precede uses; second population: structs, enums, generic structs, methods on them and "
+        "on built-in types and constructor functions, defined in a random order over 2..7 inputs (a method may come in an "
+        "earlier input than its receiver's type), the last input calling everything. Session A receives the inputs one request at a time, session B (fresh) "
         "receives their concatenation as one request. Oracle: the value reported for the last input in A equals the "
         "value B reports (extracted from B's 'Loaded ..., and the expression evaluated to V.' summary), every request "
         "of A is answered without error, and the concatenated printed output of A equals B's. "
@@ -135,8 +137,47 @@ def check(case, ctx) -> Res:
     return Res(ok=True, nontrivial=nt, classes=tuple(cls))
 
 
+def gen_types(r):
+    """structs, enums, methods on them and on built-in types, and functions that build them, defined in a random
+    order over 2..7 inputs (a method may be defined in an earlier input than the type of its receiver, a function
+    before the type it constructs); the last input calls everything"""
+    defs, terms = [], []
+    for i in range(r.int(1, 3)):
+        k = r.int(0, 3)
+        if k == 0:
+            defs += [f"struct Sq{i} {{ w: Int }}", f"method twice{i}(this: Sq{i}): Int {{ (this.w * 2) + {i} }}",
+                     f"fun mk{i}(n: Int): Sq{i} {{ Sq{i}{{ w: n }} }}"]
+            terms.append(f"mk{i}({i + 3}).twice{i}()")
+        elif k == 1:
+            defs += [f"enum Col{i} {{ Rd{i}, Gr{i}(Int) }}",
+                     f"method weight{i}(this: Col{i}): Int {{ match this {{ Rd{i} => 1, Gr{i}(n) => n }} }}"]
+            terms.append(f"Gr{i}({i + 4}).weight{i}()")
+            terms.append(f"Rd{i}.weight{i}()")
+        elif k == 2:
+            defs += [f"method inc{i}(this: Int): Int {{ this + {i + 1} }}", f"method shout{i}(this: String): Int {{ this.len() + {i} }}"]
+            terms.append(f"{i + 5}.inc{i}()")
+            terms.append(f'"ab".shout{i}()')
+        else:
+            defs += [f"struct Bx{i}<T> {{ v: T }}", f"method unbox{i}<T>(this: Bx{i}<T>): T {{ this.v }}", f"let top{i} = {i + 7}"]
+            terms.append(f"Bx{i}{{ v: top{i} }}.unbox{i}()")
+    order = r.sample(defs, len(defs))
+    final = "(" + ") + (".join(terms) + ")" if len(terms) > 1 else terms[0]
+    # cut the definitions into inputs
+    inputs, cur = [], []
+    for d in order:
+        cur.append(d)
+        if r.bool(0.55):
+            inputs.append("\n".join(cur))
+            cur = []
+    if cur:
+        inputs.append("\n".join(cur))
+    inputs.append(final)
+    return {"inputs": inputs, "ndefs": len(defs), "cross": True, "types": True}
+
+
 def show(case):
     return case.get("inputs", [])[:6]
 
 
-SUBS = [Sub("split-vs-whole", check, gen=gen, cases={"quick": 800, "thorough": 20000}, show=show)]
+SUBS = [Sub("split-vs-whole", check, gen=gen, cases={"quick": 800, "thorough": 20000}, show=show),
+        Sub("types-and-methods", check, gen=gen_types, cases={"quick": 200, "thorough": 6000}, show=show)]
